@@ -401,6 +401,71 @@ fn dependency_graph(t: &mut Tape) -> String {
     out
 }
 
+
+/// Syntactically valid statements over a handful of untyped variables: assignments that tie types into knots
+/// (a list that contains itself, a function that returns itself, variables unified with each other's
+/// containers), comparisons, calls and pushes between them. Most programs are ill-typed; all must be handled.
+fn type_knots(t: &mut Tape) -> String {
+    let vars = ["a", "b", "c", "d"];
+    let nv = t.below(3) + 2;
+    let mut out = String::from("start :: fn do\n");
+    let inits = ["[]", "[1]", "(1, 2)", "1", "\"s\"", "fn x do x end", "fn x -> do [x] end", "nil", "[[]]", "Maybe.None", "fn -> do 1 end"];
+    for v in vars.iter().take(nv) {
+        out.push_str(&format!("    {} := {}\n", v, t.pick(&inits)));
+    }
+    // self-referential types first: each variable may be tied to a container of itself
+    for v in vars.iter().take(nv) {
+        if t.chance(1, 2) {
+            let st = match t.below(6) {
+                0 => format!("{} = [{}]", v, v),
+                1 => format!("list.push({}, {})", v, v),
+                2 => format!("{} = fn -> do {} end", v, v),
+                3 => format!("{} = Maybe.Just {}", v, v),
+                4 => format!("{} = fn q do {}(q) end", v, v),
+                _ => format!("{} = [[{}]]", v, v),
+            };
+            out.push_str(&format!("    {}\n", st));
+        }
+    }
+    let n = t.below(8) + 1;
+    for _ in 0..n {
+        let x = vars[t.below(nv)];
+        let y = vars[t.below(nv)];
+        let z = vars[t.below(nv)];
+        let st = match t.below(28) {
+            0 => format!("{} = [{}]", x, y),
+            1 | 22 | 23 | 24 => format!("{} = {}", x, y),
+            25 | 26 => format!("print({} == {})", x, y),
+            27 => format!("{} <=> {}", x, y),
+            2 => format!("{} = ({}, {})", x, y, z),
+            3 => format!("list.push({}, {})", x, y),
+            4 => format!("{} = {}({})", x, y, z),
+            5 => format!("{} = fn q do {} end", x, y),
+            6 => format!("{} = fn q -> do {}(q) end", x, y),
+            7 => format!("print({} == {})", x, y),
+            8 => format!("{} <=> {}", x, y),
+            9 => format!("{} = {}[0]", x, y),
+            10 => format!("{} = list.get({}, 0)", x, y),
+            11 => format!("{} = Maybe.Just {}", x, y),
+            12 => format!("{} = [{}, {}]", x, y, z),
+            13 => format!("{} += {}", x, y),
+            14 => format!("{} = {} + {}", x, y, z),
+            15 => format!("{} = if true do {} else {} end", x, y, z),
+            16 => format!("print({} < {})", x, y),
+            17 => format!("{} = map({}, fn q do {} end)", x, y, z),
+            18 => format!("{} = {}.f", x, y),
+            19 => format!("{}({})", x, y),
+            20 => format!("{} = fn -> do {} end", x, x),
+            _ => format!("{} = ({},)", x, x),
+        };
+        out.push_str("    ");
+        out.push_str(&st);
+        out.push('\n');
+    }
+    out.push_str("end\n");
+    out
+}
+
 fn soup(t: &mut Tape) -> String {
     let n = t.below(120) + 1;
     let mut s = String::new();
@@ -472,7 +537,8 @@ impl Check for C07 {
     fn generate(&self, u: &mut Unstructured, _tier: Tier) -> Option<Case> {
         let mut t = Tape::new(u);
         let c = corpus();
-        let (project, origin) = match t.weighted(&[20, 30, 15, 15, 20, 25, 25, 15]) {
+        let (project, origin) = match t.weighted(&[20, 30, 15, 15, 20, 25, 25, 15, 20]) {
+            8 => (Project::single(type_knots(&mut t)), "type-knots"),
             6 => {
                 let a = if t.chance(2, 3) { generated_program(&mut t) } else { t.pick(c).clone() };
                 (Project::single(identifier_mutation(&mut t, &a)), "identifier-mutation")
@@ -657,7 +723,7 @@ impl Check for C07 {
         "cases: (1) token soup over the full token alphabet with statement fragments, (2) byte/token/line mutations, truncations \
          and splices of the programs under /repo/tests, (3) the same on generated valid programs, (4) every statement kind \
          misplaced into 9 contexts, (5) 1-4 file projects with missing/cyclic/duplicate/aliased imports, conflict markers, empty \
-         and comment-only files, (6) valid generated programs with erased annotations, (7) identifier-level mutations of valid programs (an identifier occurrence or a definition's name becomes another identifier of the program, literals change type, `::`<->`:=`, `fn`<->`pu`: syntactically valid, semantically arbitrary), (8) random dependency graphs among top-level values, functions and blobs (self loops, mutual recursion, longer cycles); std on and off; files are materialised so that error rendering reads real sources. Oracle: \
+         and comment-only files, (6) valid generated programs with erased annotations, (7) identifier-level mutations of valid programs (an identifier occurrence or a definition's name becomes another identifier of the program, literals change type, `::`<->`:=`, `fn`<->`pu`: syntactically valid, semantically arbitrary), (8) random dependency graphs among top-level values, functions and blobs (self loops, mutual recursion, longer cycles), (9) type knots: valid statements over a few untyped variables that tie types into cycles (a list containing itself, a function returning itself, variables unified with each other's containers); std on and off; files are materialised so that error rendering reads real sources. Oracle: \
          compile returns Accepted(non-empty Lua) or Rejected(non-empty error list, zero bytes written), every error's Display \
          renders without panicking to non-empty text, no panic; a child process that dies (abort/OOM at 6 GiB address space/30 s \
          watchdog) is a violation. non-trivial = fewer than 20% error tokens and the input reaches name resolution or later \
